@@ -488,7 +488,7 @@ def gen_pool(rnd, ir, dname, nrec=10, nopen=2, darr_len=None):
     return openargs, recs
 
 
-def gen_history(rnd, ir, dname, openargs, recs, hdr, sizes, length=None, toggles=True, setbufs=True, mono_p=0.25):
+def gen_history(rnd, ir, dname, openargs, recs, hdr, sizes, length=None, toggles=True, setbufs=True, mono_p=0.25, alone_p=0.15):
     """one random history.  Buffer sizes are drawn so that records end at, just before and past
     the end of the packet; 30 % of back-end answers are "full"."""
     length = length or rnd.randint(5, 40)
@@ -515,6 +515,13 @@ def gen_history(rnd, ir, dname, openargs, recs, hdr, sizes, length=None, toggles
             mono = recs[j]
             buf = hdr_bytes + rnd.choice([1, 2, 2, 3]) * (sizes[j] // 8)
             length = max(length, 12)
+    if mono is None and recs and sizes and rnd.random() < alone_p:
+        # one record of the pool fits an empty packet to the byte (its size is measured from the beginning of the packet
+        # content): any record before it forces a packet switch after which it must still fit
+        j = rnd.randrange(min(len(recs), len(sizes)))
+        if sizes[j] > 0:
+            buf = hdr_bytes + (sizes[j] + 7) // 8
+            length = max(length, 10)
     calls = []
     if rnd.random() < 0.92:
         calls.append(['open'])
